@@ -102,7 +102,18 @@ def upload_case(ctx, cid):
         p1 = spawn_vsb(ctx, ['-c', w.cfg, 'upload'], w.now, {'TRACE': trace, 'WATCH': w.root, 'PAUSE': 'opendir@%s@1:%s' % (w.root, fifo)})
         paused = wait_paused(trace)
         t0 = time.time()
-        r2 = store.run_vsb(ctx, ['-c', w.cfg, 'upload'], now=w.now + 1, timeout=30, extra_env={'VSB_VERIF_URL_MAP': 'https://=http://127.0.0.1:9/'})
+        # the refused run must not go on: no access to the local storage, no request to the provider
+        from vlib import emu
+        em = emu.Emulator(os.path.join(w.base, 'emu-state'))
+        trace2 = os.path.join(w.base, 'trace2.txt')
+        try:
+            r2 = store.run_vsb(ctx, ['-c', w.cfg, 'upload'], now=w.now + 1, timeout=60, shim_env={'TRACE': trace2, 'WATCH': w.root},
+                               extra_env={'VSB_VERIF_URL_MAP': em.url_map})
+            time.sleep(0.1)
+            went_on = ['request %s' % q['endpoint'] for q in em.new_requests()]
+        finally:
+            em.stop()
+        went_on += ['%s %s' % (x['call'], x['path']) for x in tr.parse(trace2, w.root) if x['call'] not in ('EXIT',)][:3]
         dt = time.time() - t0
         p1.kill()
         try:
@@ -111,7 +122,8 @@ def upload_case(ctx, cid):
         except OSError:
             pass
         p1.wait()
-        return {'point': 'upload-listing', 'paused': paused, 'rc2': r2.rc, 'errors2': r2.errors()[:2], 'dt2': round(dt, 2), 'storage_unchanged': True, 'rc1': 0}
+        return {'point': 'upload-listing', 'paused': paused, 'rc2': r2.rc, 'errors2': r2.errors()[:2], 'dt2': round(dt, 2), 'storage_unchanged': True, 'rc1': 0,
+                'went_on': went_on}
     finally:
         w.cleanup()
 
@@ -152,6 +164,8 @@ def check(ctx):
         if c['rc2'] == 0 or not lock_err:
             ctx.violation('property', 'a second run started while the first was held at %s did not fail with the lock error (exit %s, %s)'
                           % (c['point'], c['rc2'], c['errors2'][:1]), {'case': c})
+        elif c.get('went_on'):
+            ctx.violation('property', 'the refused second `vsb upload` went on after failing to take the lock: %s' % c['went_on'][:3], {'case': c})
         elif not c['storage_unchanged']:
             ctx.violation('property', 'the second run modified the storage while the first was held at %s' % c['point'], {'case': c})
         elif c['dt2'] > 10:
